@@ -180,8 +180,7 @@ OPT_PRINTERS = {
     "qY": "qY(x: BByte): () == qS(ByteToSInt x);",
     "qH": "qH(x: BHInt): () == qS(HIntToSInt x);",
     "qF": "qF(x: BSFlo): () == { (s, e, m) := SFloDissemble x; qB s; qS e; qW m }",
-    # the second fraction word of DFloDissemble is not observed: see known_findings (uninitialised on LP64)
-    "qD": "qD(x: BDFlo): () == { (s, e, m, m2) := DFloDissemble x; qB s; qS e; qW m }",
+    "qD": "qD(x: BDFlo): () == { (s, e, m, m2) := DFloDissemble x; qB s; qS e; qW m; qW m2 }",
 }
 
 
@@ -228,7 +227,7 @@ def render(cases, sig, variable_first=False):
             printers.add("qC")
             body.append("%sqC(%s); qR(%s); nl();" % (pre, call, call))
             continue
-        shown = rts[:3] if op == "DFloDissemble" else rts   # second fraction word not observed (see qD)
+        shown = rts
         for t in shown:
             p = PRINTER[t]
             if p in OPT_PRINTERS:
